@@ -35,9 +35,38 @@ class Stub:
 
 
 class BlockEvalX(BlockEval):
-    def __init__(self, repo, module: str, env: Optional[Dict[str, Any]] = None, max_steps: int = 200000, depth: int = 0):
+    def __init__(self, repo, module: str, env: Optional[Dict[str, Any]] = None, max_steps: int = 200000, depth: int = 0, module_funcs: bool = True):
         super().__init__(repo, module, env, max_steps)
         self.depth = depth
+        self.module_funcs = module_funcs
+        if module_funcs:
+            # undecorated module-level functions of the analysed module that the rule did not replace by a stub are interpreted
+            # like local helpers; their free names are the globals the rule supplied (not the locals of the calling fragment)
+            self.globals_env: Dict[str, Any] = dict(env or {}) if depth == 0 else dict((env or {}).get("__globals_env__", {}))
+            try:
+                funcs = repo.module(module).funcs
+            except Exception:
+                funcs = {}
+            for name, fi in funcs.items():
+                if "." in name or name in self.env or fi.node.decorator_list or not isinstance(fi.node, ast.FunctionDef):
+                    continue
+                self.env[name] = self._module_function(fi.node)
+
+    def _module_function(self, fn: ast.FunctionDef) -> Callable[..., Any]:
+        outer = self
+        made: Dict[str, Callable[..., Any]] = {}
+
+        def call(*vals):
+            if "f" not in made:
+                g = BlockEvalX(outer.repo, outer.module, dict(outer.globals_env), outer.max_steps, 0, True)
+                g.depth = outer.depth
+                made["f"] = g.make_function(fn)
+                made["g"] = g
+            made["g"].depth = outer.depth
+            return made["f"](*vals)
+
+        call.__name__ = fn.name
+        return call
 
     def make_function(self, fn: ast.FunctionDef, bound_self: Any = None, extra_env: Optional[Dict[str, Any]] = None) -> Callable[..., Any]:
         a = fn.args
@@ -58,7 +87,9 @@ class BlockEvalX(BlockEval):
                 ps = ps[1:]
             if len(vals) > len(ps):
                 raise TypeError(f"{fn.name}() takes {len(ps)} positional arguments but {len(vals)} were given")
-            sub = BlockEvalX(outer.repo, outer.module, env, outer.max_steps, outer.depth + 1)
+            if outer.module_funcs:
+                env["__globals_env__"] = outer.globals_env
+            sub = BlockEvalX(outer.repo, outer.module, env, outer.max_steps, outer.depth + 1, outer.module_funcs)
             for p, v in zip(ps, vals):
                 sub.env[p] = v
             for p in ps[len(vals) :]:
